@@ -264,6 +264,9 @@ class Evaluator:
             self.stmt(s)
 
     def stmt(self, s):
+        if isinstance(s, ast.Assign) and isinstance(s.value, ast.Lambda) and len(s.targets) == 1 and isinstance(s.targets[0], ast.Name):
+            self.env[s.targets[0].id] = Token('lambda')      # a function value: opaque unless it is called
+            return
         if isinstance(s, ast.Assign):
             v = self.ev(s.value)
             for t in s.targets:
